@@ -3,9 +3,9 @@ Model of the bytecode compiler's *result-register protocol* (`ResultRegister::{N
 `CompileNodeOutput`) for the scalar / conditional core of Koto, mirroring
 `crates/bytecode/src/compiler.rs`:
 
-  compile_node (Null, BoolTrue/False, SmallInt/Int, Id), compile_unary_op, compile_arithmetic_op,
-  compile_comparison_op (without chaining), compile_logic_op, compile_assign (Id target),
-  compile_compound_assignment_op (Id target), compile_block, compile_if (if / if-else),
+  compile_node (Null, BoolTrue/False, SmallInt/Int, VarId), compile_unary_op, compile_arithmetic_op,
+  compile_comparison_op (without chaining), compile_logic_op, compile_assign (VarId target),
+  compile_compound_assignment_op (VarId target), compile_block, compile_if (if / if-else),
   assign_result_register, and the register allocator calls they make (`frame.rs`:
   push_register / pop_register / truncate / reserve_local_register / commit_local_register /
   get_local_assigned_register).
@@ -19,8 +19,9 @@ about this model concern register allocation and control flow only, for *every* 
 -/
 namespace KotoVerif.Compile
 
-abbrev Id := Nat
-abbrev Reg := Nat
+-- (notations rather than `abbrev`s: `omega` ignores hypotheses about abbreviations of `Nat`)
+scoped notation "VarId" => Nat
+scoped notation "Reg" => Nat
 
 inductive UnOp | neg | not
   deriving DecidableEq, Repr, Inhabited
@@ -38,14 +39,14 @@ inductive Expr where
   | null
   | bool (b : Bool)
   | int (n : Int)
-  | var (x : Id)
+  | var (x : VarId)
   | un (op : UnOp) (e : Expr)
   | bin (op : BinOp) (a b : Expr)
   | cmp (op : BinOp) (a b : Expr)
   | and (a b : Expr)
   | or (a b : Expr)
-  | assign (x : Id) (e : Expr)
-  | compound (op : BinOp) (x : Id) (e : Expr)
+  | assign (x : VarId) (e : Expr)
+  | compound (op : BinOp) (x : VarId) (e : Expr)
   | seq (a b : Expr)
   | ite (c t e : Expr)
   | ifThen (c t : Expr)
@@ -65,9 +66,9 @@ structure Sem where
 
 variable (S : Sem)
 
-abbrev Env := Id → Option S.V
+abbrev Env := VarId → Option S.V
 
-def Env.set {S : Sem} (ρ : Env S) (x : Id) (v : S.V) : Env S := fun y => if y = x then some v else ρ y
+def Env.set {S : Sem} (ρ : Env S) (x : VarId) (v : S.V) : Env S := fun y => if y = x then some v else ρ y
 
 /-- big-step evaluation; `none` = a runtime error (or a read of an unassigned name) -/
 def eval : Expr → Env S → Option (S.V × Env S)
@@ -183,11 +184,11 @@ def exec : Code → Regs S → Option (Regs S)
 /-- `LocalRegister`; a local's register number is its index in `local_registers` -/
 inductive Slot where
   | allocated                -- register 0 (`self`), unnamed arguments
-  | assigned (x : Id)
-  | reserved (x : Id)
+  | assigned (x : VarId)
+  | reserved (x : VarId)
   deriving DecidableEq, Repr, Inhabited
 
-def Slot.id? : Slot → Option Id
+def Slot.id? : Slot → Option VarId
   | .allocated => none
   | .assigned x => some x
   | .reserved x => some x
@@ -208,11 +209,11 @@ def findSlot (p : Slot → Bool) : List Slot → Nat → Option Nat
   | s :: rest, i => if p s then some i else findSlot p rest (i + 1)
 
 /-- `get_local_assigned_register` -/
-def Frame.getAssigned (F : Frame) (x : Id) : Option Reg :=
+def Frame.getAssigned (F : Frame) (x : VarId) : Option Reg :=
   findSlot (fun s => s == .assigned x) F.locals 0
 
 /-- `get_local_assigned_or_reserved_register` -/
-def Frame.getAssignedOrReserved (F : Frame) (x : Id) : Option Reg :=
+def Frame.getAssignedOrReserved (F : Frame) (x : VarId) : Option Reg :=
   findSlot (fun s => s.id? == some x) F.locals 0
 
 /-- `push_register`: `StackOverflow` when the new register would be 255 -/
@@ -225,7 +226,7 @@ def Frame.popReg (F : Frame) : Option Frame :=
   if F.tc = 0 then none else some { F with tc := F.tc - 1 }
 
 /-- `reserve_local_register`: `LocalRegisterOverflow` when no local slot is left -/
-def Frame.reserve (F : Frame) (x : Id) : Option (Reg × Frame) :=
+def Frame.reserve (F : Frame) (x : VarId) : Option (Reg × Frame) :=
   match F.getAssignedOrReserved x with
   | some r => some (r, F)
   | none =>
@@ -269,6 +270,24 @@ def branchMode (r : Option Reg) : Mode :=
   match r with
   | some r => .fixed r
   | none => .none
+
+/-- `result.register.map_or_else(|| self.push_register(), Ok)`: the result register, or a fresh
+temporary when there is none -/
+def resultOrTemp (res : Out) (F : Frame) : Option (Reg × Frame) :=
+  match res.reg with
+  | some r => some (r, F)
+  | none => F.pushReg
+
+/-- the register committed at the end of an assignment (`if !value_result.is_temporary`) -/
+def commitIf (o : Out) (vr : Reg) (F : Frame) : Option Frame :=
+  if o.temp then some F else F.commit vr
+
+/-- the result of `compile_assign` for each result mode -/
+def assignOut (m : Mode) (c : Code) (o : Out) (vr : Reg) : Code × Out :=
+  match m with
+  | .fixed r => (if r ≠ vr then .seq c (.instr (.copy r vr)) else c, ⟨some r, false⟩)
+  | .any => (c, o)
+  | .none => (c, ⟨Option.none, false⟩)
 
 def compile : Expr → Mode → Frame → Option (Code × Out × Frame)
   | .null, m, F => do
@@ -315,9 +334,7 @@ def compile : Expr → Mode → Frame → Option (Code × Out × Frame)
     -- temporary comparison register is taken when there is no result register, and the register
     -- stack is truncated to its size after `assign_result_register`
     let (res, F1) ← assignResult m F
-    let F1' ← match res.reg with
-      | some _ => some F1
-      | none => (F1.pushReg).map (·.2)
+    let (_, F1') ← resultOrTemp res F1
     let (ca, oa, F2) ← compile a .any F1'
     let ra ← oa.reg
     let (cb, ob, F3) ← compile b .any F2
@@ -325,18 +342,14 @@ def compile : Expr → Mode → Frame → Option (Code × Out × Frame)
     pure (.seq ca (.seq cb (instrIf res.reg (fun r => .binop op r ra rb))), res, { F3 with tc := F1.tc })
   | .and a b, m, F => do
     let (res, F1) ← assignResult m F
-    let (reg, F2) ← match res.reg with
-      | some r => some (r, F1)
-      | none => F1.pushReg
+    let (reg, F2) ← resultOrTemp res F1
     let (ca, _, F3) ← compile a (.fixed reg) F2
     let (cb, _, F4) ← compile b (.fixed reg) F3
     let F5 ← popIf res.reg.isNone F4
     pure (.seq ca (.jumpIfFalse reg cb), res, F5)
   | .or a b, m, F => do
     let (res, F1) ← assignResult m F
-    let (reg, F2) ← match res.reg with
-      | some r => some (r, F1)
-      | none => F1.pushReg
+    let (reg, F2) ← resultOrTemp res F1
     let (ca, _, F3) ← compile a (.fixed reg) F2
     let (cb, _, F4) ← compile b (.fixed reg) F3
     let F5 ← popIf res.reg.isNone F4
@@ -345,16 +358,13 @@ def compile : Expr → Mode → Frame → Option (Code × Out × Frame)
     let (rx, F1) ← F.reserve x
     let (c, o, F2) ← compile e (.fixed rx) F1
     let vr ← o.reg
-    let F3 ← if o.temp then some F2 else F2.commit vr
-    match m with
-    | .fixed r => pure (if r ≠ vr then .seq c (.instr (.copy r vr)) else c, ⟨some r, false⟩, F3)
-    | .any => pure (c, o, F3)
-    | .none => pure (c, ⟨Option.none, false⟩, F3)
+    let F3 ← commitIf o vr F2
+    pure ((assignOut m c o vr).1, (assignOut m c o vr).2, F3)
   | .compound op x e, m, F => do
     let (res, F1) ← assignResult m F
     let (cr, orr, F2) ← compile e .any F1
     let rr ← orr.reg
-    -- the left-hand side is compiled as `Id` with `Any`: a local's own register, no code
+    -- the left-hand side is compiled as `VarId` with `Any`: a local's own register, no code
     let rl ← F2.getAssigned x
     let F5 ← popIf orr.temp F2
     pure (.seq cr (.seq (.instr (.compound op rl rr)) (instrIf res.reg (fun r => .copy r rl))), res, F5)
